@@ -166,7 +166,17 @@ where
             ret = async {src.stream.as_mut().unwrap().read(&mut sbuf).await}, if have_stream => {
                 let len = ret.with_context(|| format!("read from {}", src.name))?;
                 if len > 0 {
-                    dst.stream.as_mut().unwrap().write_all(&sbuf[..len]).await.with_context(|| format!("write to {}", dst.name))?;
+                    // a slow receiver takes a chunk in pieces: every piece is activity of this tunnel, a chunk that
+                    // needs longer than the idle timeout to get through must not look like silence
+                    let mut off = 0;
+                    while off < len {
+                        let n = dst.stream.as_mut().unwrap().write(&sbuf[off..len]).await.with_context(|| format!("write to {}", dst.name))?;
+                        if n == 0 {
+                            return Err(std::io::Error::from(std::io::ErrorKind::WriteZero)).with_context(|| format!("write to {}", dst.name));
+                        }
+                        off += n;
+                        stat.touch();
+                    }
                     dst.stream.as_mut().unwrap().flush().await.with_context(|| format!("flush {} buffer", dst.name))?;
                     stat.incr_sent_bytes(len);
                     #[cfg(feature = "metrics")]
@@ -199,6 +209,7 @@ where
                             return Err(std::io::Error::from(std::io::ErrorKind::WriteZero)).with_context(|| format!("pipe_write to {}", dst.name));
                         }
                         left = left.saturating_sub(n);
+                        stat.touch();
                     }
                     stat.incr_sent_bytes(len);
                     #[cfg(feature = "metrics")]
